@@ -1,12 +1,14 @@
 """C13 — jitter varies each tick but preserves the long-run total."""
 from ..core import ints
+from . import _plan
 ID = "C13"
-PROPS = ["F1Verif.Props.C13", "F1Verif.Props.FactsC13"]
+PROPS = ["F1Verif.Props.C13", "F1Verif.Props.FactsC13", "F1Verif.Props.C15"]
 RULE = ("relational correspondence on api.WithJitter (random source internal): the harness logs (rate_k, out_k) for "
         "scripted rate sequences — constant, bursty (R,0), (R,0,0,0), zero-heavy, ramps, small rates 1-3, large rates — "
         "at jitter 0, 0.5, 2, 12.25, 20, 50, 75, 99.875 percent over 200 to 20000 ticks (10^5-10^6 in the thorough tier); "
         "the driver recomputes the integer carry from the observations and checks every step against the admissible "
-        "relation the theorems are proved for (slack 1/1000 included). Non-trivial: jitter > 0, at least 200 ticks and a "
+        "relation the theorems are proved for (slack 1/1000 included); config files (plan op) whose constant stages spell "
+        "jitter 0, another value or inherit the default section's: a stage built with jitter 0 must yield its rate on every tick. Non-trivial: jitter > 0, at least 200 ticks and a "
         "non-zero rate; distinct = distinct case lines.")
 ASSUMPTIONS = ["the random variation is an arbitrary value in [-1, 1] (math.Cos of anything); its distribution is irrelevant",
                "float64 evaluation of (rate+carry)*factor is covered by the 1/1000 slack that is part of the relation",
@@ -56,11 +58,24 @@ def generate(rng, tier):
         for jn, jd in [(20, 1), (50, 1), (799, 8)]:
             out.append(case(jn, jd, 10**6, [3]))
             out.append(case(jn, jd, 10**6, [1000, 0]))
+    # where the jitter value comes from: config files whose stages spell jitter 0, another value, or inherit the default's
+    for _ in range({"quick": 60, "thorough": 800, "search": 200}[tier]):
+        out.append(_plan.jitter_plan_case(rng))
     return out
+
+
+def compare(rec):
+    if rec["case"].startswith("plan "):
+        return _plan.plan_compare(rec)
+    if rec["model"] == "-":
+        return None
+    return None if rec["impl"] == rec["model"] else "model=%s impl=%s" % (rec["model"], rec["impl"])
 
 
 def nontrivial_key(rec):
     a = rec["case"].split()
+    if a[0] == "plan":
+        return rec["case"] if "jitter=0" in rec["case"] else None
     if a[1] != "0" and int(a[3]) >= 200 and any(x not in ("0", "-") for x in a[4].split(",")):
         return rec["case"]
     return None
@@ -70,6 +85,9 @@ def distribution(recs):
     d = {"ticks_total": 0, "zero_jitter": 0}
     for r in recs:
         a = r["case"].split()
+        if a[0] == "plan":
+            d["config_files"] = d.get("config_files", 0) + 1
+            continue
         d["ticks_total"] += int(a[3])
         d["zero_jitter"] += a[1] == "0"
         key = "jitter_%s/%s" % (a[1], a[2])
@@ -78,6 +96,6 @@ def distribution(recs):
 
 
 MANIFEST = {
- "text": "For every run whose steps are admissible (out >= 0; nothing emitted while rate+carry <= 0; otherwise |out - (rate+carry)| <= j/100*(rate+carry) + 1/2 + slack): the running totals telescope (C13_telescope), the carry and hence the difference of the running totals stays within (j/100*R + 1/2 + slack)/(1 - j/100) forever for rates in [0,R] and j < 100 (C13_bounded, C13_totals_close; induction with the bound as a fixed point), values are non-negative and within jitter percent plus rounding of rate+carry (C13_nonneg, C13_step_range), zero jitter is the identity (C13_zero_identity); the integer checker applied to observed runs decides exactly the relation of the theorems (admissibleB_iff). Any length, any random outcomes.",
+ "text": "For every run whose steps are admissible (out >= 0; nothing emitted while rate+carry <= 0; otherwise |out - (rate+carry)| <= j/100*(rate+carry) + 1/2 + slack): the running totals telescope (C13_telescope), the carry and hence the difference of the running totals stays within (j/100*R + 1/2 + slack)/(1 - j/100) forever for rates in [0,R] and j < 100 (C13_bounded, C13_totals_close; induction with the bound as a fixed point), values are non-negative and within jitter percent plus rounding of rate+carry (C13_nonneg, C13_step_range), zero jitter is the identity (C13_zero_identity) and a config-file stage is built with the jitter it spells — an explicit 0 included — the default section's only when it omits it (C15_stage_jitter); the integer checker applied to observed runs decides exactly the relation of the theorems (admissibleB_iff). Any length, any random outcomes.",
  "note": "Relational model: the random factor is an arbitrary element of [1-j/100, 1+j/100]; the tie checks that every observed step of the real WithJitter is admissible. The 1/1000 slack for float evaluation is part of the relation. math.Cos/rand assumed to stay in range.",
  "technique": "Lean 4 theorems over Q (telescoping sum, invariant bound as fixed point; Mathlib linarith/nlinarith) + relational trace acceptance of the real function"}
